@@ -44,7 +44,7 @@ FLOORS = {
     "O2": 6, "O3": 20, "S1": 20,
     "X1": 5, "X2": 40, "X3": 6, "X4": 1,
     "P1": 3, "P2": 2, "P3": 5, "P4": 1, "P5": 2, "P6": 9, "P7": 5, "P8": 1, "P9": 1, "P10": 1, "P11": 1, "P12": 1, "P13": 1,
-    "E7": 30, "U1": 5, "S2": 12, "S3": 15, "G1": 6, "G2": 5, "G3": 8, "G4": 5, "G5": 1, "S1b": 6, "M1": 1,
+    "E7": 30, "U1": 5, "S2": 12, "S3": 15, "G1": 3, "G2": 5, "G3": 8, "G4": 5, "G5": 1, "S1b": 6, "M1": 1,
     "N1": 25, "N2": 8, "O4": 2, "O5": 4, "O6": 1, "O7": 2, "V1": 10, "V2": 1, "S4": 1, "S5": 2, "S6": 10, "S7": 4, "S8": 1, "S1c": 12,
     "V3": 3, "G6": 1, "J1": 2, "P14": 1, "F12": 1, "P15": 1,
 }
